@@ -50,7 +50,9 @@ fn battery(d: &mut Ddnnf, n: u32, rng_seed: u64) -> Vec<String> {
 fn one(out: &mut Out, origin: &str, text: &str, d: &mut Ddnnf, tt: Option<&TT>, tmp: &str, seed: u64, via_stream: bool) {
     let n = d.number_of_variables;
     let path = format!("{tmp}/saved.nnf");
-    let _ = std::fs::remove_file(&path);
+    // every third save goes to a fresh path; the others overwrite the file the previous model left there
+    // (a saved file must not depend on what the path held before)
+    if seed % 3 == 0 { let _ = std::fs::remove_file(&path); } else if std::path::Path::new(&path).exists() { out.count("saved_over_existing_file", 1); }
     let res = if via_stream { guarded(|| d.handle_stream_msg(&format!("save-ddnnf p {}", path))).map(|s| if s.is_empty() { Ok(()) } else { Err(s) }) }
               else { guarded(|| ddnnife::parser::persisting::write_ddnnf_to_file(d, std::path::Path::new(&path)).map_err(|e| e.to_string())) };
     match res {
@@ -66,9 +68,12 @@ fn one(out: &mut Out, origin: &str, text: &str, d: &mut Ddnnf, tt: Option<&TT>, 
     // (2) the file denotes the same function over the same n (independent evaluator of the text)
     if let Some(tt) = tt {
         let hdr: Vec<&str> = saved_lines.first().map(|l| l.split_whitespace().collect()).unwrap_or_default();
-        if hdr.len() != 4 || hdr[3] != n.to_string() || hdr[1] != (saved_lines.len() - 1).to_string() { out.fail("saved-header", text, "save", &saved_lines.first().cloned().unwrap_or_default(), &format!("nnf {} _ {}", saved_lines.len() - 1, n)); }
-        let stt = eval_c2d_text(&saved_lines, n);
-        if stt != *tt { out.fail("saved-file-denotes-other-function", text, "save", &stt.to_string01(), &tt.to_string01()); }
+        if hdr.len() != 4 || hdr[3] != n.to_string() || hdr[1] != (saved_lines.len().max(1) - 1).to_string() { out.fail("saved-header", text, "save", &saved_lines.first().cloned().unwrap_or_default(), &format!("nnf {} _ {}", saved_lines.len() - 1, n)); }
+        // header `nnf v e n` must be followed by exactly v node lines
+        match guarded(|| eval_c2d_text(&saved_lines, n)) {
+            Ok(stt) => if stt != *tt { out.fail("saved-file-denotes-other-function", text, "save", &stt.to_string01(), &tt.to_string01()); },
+            Err(e) => out.fail("saved-file-malformed", text, "save", &format!("{e}: {}", saved_lines.join(" / ")), "a c2d file"),
+        }
     }
     // (3) reload with the real loader
     let lines = saved.lines().map(|l| l.to_string()).collect::<Vec<_>>();
@@ -88,7 +93,6 @@ fn one(out: &mut Out, origin: &str, text: &str, d: &mut Ddnnf, tt: Option<&TT>, 
             }
         }
     }
-    let _ = std::fs::remove_file(&path);
 }
 
 pub fn c10(a: &Args) {
